@@ -23,6 +23,8 @@ import YtkModel.Generated.Constants
 import YtkProofs.Addr
 import YtkProofs.PointerPaths
 import YtkProofs.RebuildB
+import YtkProofs.GapDiffFlatten
+import YtkProofs.GapPointer
 import YtkProofs.ValidB
 
 namespace Ytk.C02
@@ -139,5 +141,107 @@ theorem nonvacuous_rebuild_exact :
 theorem source_constants :
     Generated.const? "dom.listPathRe" = some "\\[\\d+]$" ∧
     Generated.const? "utils.listPropRe" = some ".*(\\[\\d+])+" := by decide
+
+end Ytk.C02
+
+/-! ## gap7a: need of `ItemsHaveScalars`; the flattened view determines the document (C02 × C07) -/
+namespace Ytk.C02
+
+/-- `ItemsHaveScalars` cannot be dropped from `rebuild_perm`: a list item without a scalar (`{}` in
+    front of a leaf) has no flattened entry and comes back as a null pad, which Flatten then reports. -/
+theorem rebuild_needs_items_counterexample :
+    (Node.cont [("a", .list [.cont [], .leaf ⟨"int", "1"⟩])]).Valid ∧
+    (Node.cont [("a", .list [.cont [], .leaf ⟨"int", "1"⟩])]).SafeKeys ∧
+    flatten [("a", .list [.cont [], .leaf ⟨"int", "1"⟩])] = [("a[1]", ⟨"int", "1"⟩)] ∧
+    flatten (rebuild (flatten [("a", .list [.cont [], .leaf ⟨"int", "1"⟩])])) =
+      [("a[0]", Scalar.null), ("a[1]", ⟨"int", "1"⟩)] :=
+  ⟨Node.validB_sound _ (by decide +kernel), Node.safeB_sound _ (by decide +kernel), by decide +kernel,
+   by decide +kernel⟩
+
+/-- The flattened view determines the document when no list / container below the root is empty:
+    two such documents (valid, path-safe) with the same flattened view are the same document. -/
+theorem flatten_injective (L R : AMap Node) (hL : (Node.cont L).Valid) (hR : (Node.cont R).Valid)
+    (hsL : (Node.cont L).SafeKeys) (hsR : (Node.cont R).SafeKeys)
+    (hnL : ∀ p ∈ L, p.2.NoEmpty) (hnR : ∀ p ∈ R, p.2.NoEmpty) (h : flatten L = flatten R) : L = R :=
+  eq_of_flatten_eq L R hL hR hsL hsR hnL hnR h
+
+/-- C07 × C02, end to end: on such documents `Diff(L, R) = [] ↔ Flatten(L) = Flatten(R)` (C07 claims
+    and proves "→" for all valid documents; "←" fails in general: `C07.diff_nonempty_same_flatten_counterexample`).
+    Exported here because YtkProps/C07.lean cannot import YtkProofs/FlattenPaths.lean (two declarations
+    named `Ytk.Node.SafeKeys`). -/
+theorem diff_nil_iff_flatten (L R : AMap Node) (hL : (Node.cont L).Valid) (hR : (Node.cont R).Valid)
+    (hsL : (Node.cont L).SafeKeys) (hsR : (Node.cont R).SafeKeys)
+    (hnL : ∀ p ∈ L, p.2.NoEmpty) (hnR : ∀ p ∈ R, p.2.NoEmpty) :
+    diff L R = [] ↔ flatten L = flatten R :=
+  diff_nil_iff_flatten_aux L R hL hR hsL hsR hnL hnR
+
+/-- non-vacuity of the hypotheses (exFull above) and of both directions on a concrete pair -/
+theorem nonvacuous_diff_nil_iff_flatten :
+    (diff exFull exFull = [] ↔ flatten exFull = flatten exFull) ∧ diff exFull exFull = [] ∧
+    diff exFull [("b", .cont [("c", .leaf ⟨"bool", "true"⟩)])] ≠ [] ∧
+    flatten exFull ≠ flatten [("b", .cont [("c", .leaf ⟨"bool", "true"⟩)])] := by
+  have h := nonvacuous_rebuild_exact
+  exact ⟨diff_nil_iff_flatten exFull exFull h.1 h.1 h.2.1 h.2.1 h.2.2.1 h.2.2.1, by decide +kernel,
+    by decide +kernel, by decide +kernel⟩
+
+end Ytk.C02
+
+/-! ## gap7a: `pointer_flatten` on the pointer model of C09 / C10 (`Ptr.eval`, `Ptr.propPath2Pointer`) -/
+namespace Ytk.C02
+open Ytk.Ptr
+
+/-- `pointer_flatten` is stated on `evalTokens` (YtkModel/Addr.lean), a second, simpler model of
+    `patch.Path.Eval`.  The same on the model C09 / C10 are about (`Ptr.eval`: `strconv.Atoi`-based list
+    branch, trail): the translated pointer of a flattened path evaluates to that leaf, provided every
+    all-digit token is below 2^63 (`SmallIdx`: what Atoi accepts; a Go slice index always is). -/
+theorem pointer_flatten_eval (d : AMap Node) (hv : (Node.cont d).Valid) (hs : (Node.cont d).SafeKeys)
+    (p : String) (v : Scalar) (h : (p, v) ∈ flatten d) (hsm : SmallIdx (pointerTokens (propsParsePath p))) :
+    (eval (pointerTokens (propsParsePath p)) (.cont d)).2 = some (.leaf v) ∧
+    (eval (pointerTokens (propsParsePath p)) (.cont d)).1.getLast? = some (.leaf v) := by
+  have h1 := eval_of_evalTokens _ _ _ hsm (pointer_flatten d hv hs p v h)
+  refine ⟨h1, ?_⟩
+  cases hp : pointerTokens (propsParsePath p) with
+  | nil => rw [hp] at h1; simpa [eval] using h1
+  | cons t ts =>
+    rw [hp] at h1
+    rw [eval_snd] at h1
+    exact evalLoop_last (t :: ts) _ _ (by simp) h1
+
+/-- … and through the real shape of `xform.PropPath2Pointer` (`Ptr.propPath2Pointer`: the components are
+    written UNESCAPED behind '/' and the text is parsed): when no key of the path contains '/' or '~'
+    (`PtrSafeSegs`; the property's key alphabet — letters, digits, '_', '-' — has neither) the function
+    returns exactly one token per segment and the pointer evaluates to the leaf. -/
+theorem pointer_flatten_propPath2Pointer (d : AMap Node) (hv : (Node.cont d).Valid) (hs : (Node.cont d).SafeKeys)
+    (p : String) (v : Scalar) (h : (p, v) ∈ flatten d) (hsm : SmallIdx (pointerTokens (propsParsePath p)))
+    (hps : PtrSafeSegs (propsParsePath p)) :
+    ∃ ptr, propPath2Pointer ((propsParsePath p).map PSeg.toPropSeg) = .ok ptr ∧
+      (eval ptr (.cont d)).2 = some (.leaf v) :=
+  ⟨_, propPath2Pointer_eq _ hps, (pointer_flatten_eval d hv hs p v h hsm).1⟩
+
+/-- `PtrSafeSegs` cannot be dropped — and `pointer_flatten` above holds for such keys only because
+    `pointerTokens` skips the text round trip: for the member name `a/b` (path-safe in the sense of
+    `SafeKeys`: no '.', '[', ']'), the flattened path is `a/b`, C02's token list `["a/b"]` resolves, but
+    `PropPath2Pointer` writes `/a/b` unescaped, which parses to the two tokens `a`, `b` and evaluates to
+    nothing; a name `x~1y` comes back as `x/y`.  (Outside the property's key alphabet; the Go function
+    `xform.PropPath2Pointer` has this behaviour: no RFC 6901 escaping of '~' and '/'.) -/
+theorem pointer_flatten_slash_key_counterexample :
+    (Node.cont [("a/b", .leaf ⟨"int", "1"⟩)]).Valid ∧ (Node.cont [("a/b", .leaf ⟨"int", "1"⟩)]).SafeKeys ∧
+    flatten [("a/b", .leaf ⟨"int", "1"⟩)] = [("a/b", ⟨"int", "1"⟩)] ∧
+    evalTokens (.cont [("a/b", .leaf ⟨"int", "1"⟩)]) (pointerTokens (propsParsePath "a/b")) = some (.leaf ⟨"int", "1"⟩) ∧
+    propPath2Pointer ((propsParsePath "a/b").map PSeg.toPropSeg) = .ok ["a", "b"] ∧
+    (eval ["a", "b"] (.cont [("a/b", .leaf ⟨"int", "1"⟩)])).2 = none ∧
+    propPath2Pointer ((propsParsePath "x~1y").map PSeg.toPropSeg) = .ok ["x/y"] :=
+  ⟨Node.validB_sound _ (by decide +kernel), Node.safeB_sound _ (by decide +kernel), by decide +kernel,
+   by decide +kernel, by decide +kernel, by decide +kernel, by decide +kernel⟩
+
+/-- non-vacuity: the hypotheses hold for every flattened path of `exDoc` -/
+theorem nonvacuous_pointer_eval :
+    (∀ p ∈ (flatten exDoc).map (·.1), (pointerTokens (propsParsePath p)).all (fun t =>
+        match tokenIndex t with
+        | some i => decide (i < int64Lim)
+        | none => true) = true) ∧
+    propPath2Pointer ((propsParsePath "a[1].x").map PSeg.toPropSeg) = .ok ["a", "1", "x"] ∧
+    (eval ["a", "1", "x"] (.cont exDoc)).2 = some (.leaf ⟨"string", "s"⟩) := by
+  decide +kernel
 
 end Ytk.C02
